@@ -599,7 +599,69 @@ impl Arena {
 //@contract @rewind
 //@@end
 
+//@@fn file=unsync.rs scope="impl Allocator for Arena {" name=clear xlate=unsync st=mut props=C17,C09
+//@subst /let memory = &mut \*self\.inner\.as_ptr\(\);\s*memory\.clear\(\);/ => self.memory_clear(st);
+//@contract @clear
+//@after 1 /self\.memory_clear\(st\);/
+      proof {
+        st.list = Ghost(Seq::<Node>::empty());
+        lemma_dec_enc(SENTINEL_SEGMENT_NODE_SIZE, SENTINEL_SEGMENT_NODE_OFFSET);
+        assert(wf(self.av(), st@)) by {
+          assert forall|i: int| -1 <= i < st@.list.len() implies word(st@, #[trigger] cell_of(st@.list, i)) == enc(size_of_cell(st@.list, i), next_of(st@.list, i)) by {}
+        }
+      }
+//@@end
+
 } // impl Arena
+
+// ---- truncate (C18) ----------------------------------------------------------------------------------------------------
+impl Arena {
+//@@fn file=unsync.rs scope="impl Arena {" name=truncate nth=2 xlate=unsync st=mut props=C18
+//@subst /self\.inner\.as_mut\(\)/ => MemTok::of(self)
+//@subst /memory\.truncate\(/ => memory.truncate(st, 
+//@subst /memory\.as_mut_ptr\(\)/ => memory.as_mut_ptr(st)
+//@subst /memory\.cap\(\)/ => memory.cap(st)
+//@contract
+  requires
+    wf(old(self).av(), old(st)@),
+    size as int <= u32::MAX as int - 8, // capacity is a u32 (Memory::truncate stores `size as u32`)
+  ensures
+    final(self).cap as int == (if size as int >= old(st)@.allocated { size as int } else { old(st)@.allocated }), // [C18]
+    final(self).data_offset == old(self).data_offset && final(self).ro == old(self).ro && final(self).freelist == old(self).freelist
+      && final(self).max_retries == old(self).max_retries && final(self).reserved == old(self).reserved, // [C18]
+    final(st)@.allocated == old(st)@.allocated && final(st)@.discarded == old(st)@.discarded && final(st)@.min_seg == old(st)@.min_seg
+      && final(st)@.list == old(st)@.list && final(st)@.sentinel == old(st)@.sentinel, // [C18]
+    final(st)@.bytes.subrange(0, old(st)@.allocated) == old(st)@.bytes.subrange(0, old(st)@.allocated), // [C18]
+    wf(final(self).av(), final(st)@), // [C18 C10]
+//@after 1 /self\.cap = memory\.cap\(st\);/
+      proof { lemma_truncate_wf(old(self).av(), self.av(), old(st)@, st@); }
+//@@end
+
+//@@fn file=unsync.rs scope="impl Arena {" name=truncate nth=1 rename=truncate__memmap xlate=unsync st=mut props=C18,C09
+//@subst /-> \(r: std::io::Result<\(\)>\)/ => -> (r: Result<(), IoError>)
+//@subst /std::io::Error::new\(\s*std::io::ErrorKind::PermissionDenied,\s*"ARENA is read-only",?\s*\)/ => io_read_only_error()
+//@subst /self\.inner\.as_mut\(\)/ => MemTok::of(self)
+//@subst /memory\.truncate\(/ => memory.truncate_io(st, 
+//@subst /memory\.as_mut_ptr\(\)/ => memory.as_mut_ptr(st)
+//@subst /memory\.cap\(\)/ => memory.cap(st)
+//@contract
+  requires
+    wf(old(self).av(), old(st)@),
+    size as int <= u32::MAX as int - 8,
+  ensures
+    old(self).ro ==> r.is_err() && *final(st) == *old(st) && final(self).cap == old(self).cap, // [C18 C09]
+    r.is_err() ==> *final(st) == *old(st) && final(self).cap == old(self).cap, // [C18]
+    r.is_ok() ==> final(self).cap as int == (if size as int >= old(st)@.allocated { size as int } else { old(st)@.allocated }), // [C18]
+    final(self).data_offset == old(self).data_offset && final(self).ro == old(self).ro && final(self).freelist == old(self).freelist
+      && final(self).max_retries == old(self).max_retries && final(self).reserved == old(self).reserved, // [C18]
+    final(st)@.allocated == old(st)@.allocated && final(st)@.discarded == old(st)@.discarded && final(st)@.min_seg == old(st)@.min_seg
+      && final(st)@.list == old(st)@.list && final(st)@.sentinel == old(st)@.sentinel, // [C18]
+    final(st)@.bytes.subrange(0, old(st)@.allocated) == old(st)@.bytes.subrange(0, old(st)@.allocated), // [C18]
+    wf(final(self).av(), final(st)@), // [C18 C10]
+//@after 1 /self\.cap = memory\.cap\(st\);/
+      proof { lemma_truncate_wf(old(self).av(), self.av(), old(st)@, st@); }
+//@@end
+}
 
 } // verus!
 fn main() {}
